@@ -102,7 +102,7 @@ def rule_ranking(ctx: Ctx) -> None:
     for p in paths:
         st = [e for e in p.effects if e.kind == "store" and strip_v(e.recv) == "self.ap"]
         ctx.require(len(st) == 1, "Ap.__init__: self.ap is not assigned exactly once per path")
-        has = fact_where(p, lambda k: k.startswith("cmp:0 < len("))
+        has = fact_where(p, lambda k: k.startswith("cmp:0 < len(") or strip_v(S(k)) == "truthy:all_object_results")
         if has is None:
             odd = [S(k) for k in p.facts if "len(all_object_results" in strip_v(S(k)) or "len(object_results" in strip_v(S(k))]
             odd = [k for k in odd if k.startswith(("cmp:", "eq:"))]
